@@ -165,7 +165,7 @@ def r3(run, ctx):
                   'numprocesses changed')
     # `changed` is False in the numprocesses-only branch, len(diff) > 0 otherwise
     ch = src.get('changed', [])
-    run.count('R3', len(ch), 2, 'assignments of `changed`')
+    run.count('R3', len(ch), 1, 'assignments of `changed`')
     for a in ch:
         node = [n for n in cfg.nodes if n.ast is a]
         if not node:
